@@ -429,6 +429,13 @@ func (e *executor) exec(line, lean string) string {
 		if uint64(k) >= n {
 			rng = " RANGE-FAIL"
 		}
+		// the raw word that was accepted must lie below the largest multiple of n (C01 step_none_iff):
+		// a word from the incomplete last block gives the low alternatives one extra preimage
+		if tp := decWords(a["tape"]); ro.used >= 1 && ro.used <= len(tp) && n > 0 {
+			if v := uint64(tp[ro.used-1]); v >= n*((1<<32)/n) {
+				rng += fmt.Sprintf(" BIASED-ACCEPT(raw=%d,limit=%d)", v, n*((1<<32)/n))
+			}
+		}
 		if ro.used > 1 {
 			branch("draw:redraw")
 		} else {
@@ -550,7 +557,11 @@ func (e *executor) exec(line, lean string) string {
 		var err error
 		ro := withReader(s, func() { p, err = r.Generate() })
 		warn, _, unk := classifyOutput(capt.take())
-		return genLine("chargen", lean, p, err, ro, warn, unk, 3, secretsOf(p, nil)) + after()
+		oracle := ""
+		if !ro.panicked {
+			oracle = charOracle(spec, decWords(a["tape"]), p, ro.used, spg.MaxTrials)
+		}
+		return genLine("chargen", lean, p, err, ro, warn, unk, 3, secretsOf(p, nil)) + oracle + after()
 
 	case "wlnew":
 		words := wordsArg(a)
@@ -646,7 +657,11 @@ func (e *executor) exec(line, lean string) string {
 			listWords = readBack(wl)
 			capt.take()
 		}
-		return genLine("wlgen", lean, p, err, ro, warn, unk, 8, secretsOf(p, listWords)) + mut + after()
+		so := ""
+		if wl != nil && listWords != nil && !ro.panicked && err == nil {
+			so = wlOracle(p, listWords, a.int("L"), a["sep"], decCps(a["cap"]))
+		}
+		return genLine("wlgen", lean, p, err, ro, warn, unk, 8, secretsOf(p, listWords)) + so + mut + after()
 
 	case "explode":
 		pw := string(decHex(a["pw"]))
@@ -754,6 +769,9 @@ func (e *executor) exec(line, lean string) string {
 			l += " ENTROPY-CHANGED"
 		}
 		return l + unknownField(unk)
+
+	case "wlcell":
+		return e.wlCell(a, lean)
 
 	case "cli":
 		return e.execCli(a, lean)
